@@ -30,7 +30,6 @@ TRUSTED_BASE = [
     "Lean 4.33 kernel (leanchecker re-check in the thorough tier)",
     "axioms: propext, Classical.choice, Quot.sound only (audited per theorem with #print axioms); no native_decide/bv_decide",
     "hand-written executable model in /verif/lean/Model tied to /repo by the correspondence check (sampled inputs)",
-    "translator /verif/translate/py2lean.py and the mini-Python interpreter Model/PyEval.lean (validated each run by executing generated ASTs against the real functions)",
     "correspondence harness /verif/harness and its generators",
     "modelled, not verified: CPython, numpy, numba, sparse.COO, h5py/json, libm, binary64 rounding",
 ]
